@@ -1,6 +1,7 @@
 import Originium.Model.Filter
 import Originium.Model.LSM
 import Originium.Model.FilterTie
+import Originium.Model.LevelTie
 /-! # C16 — the bloom filter never denies a key it was built from -/
 namespace Props
 open Key VKey Levels
@@ -50,10 +51,31 @@ theorem C16_code_is_model {ε : Type} (h : Nat → Bytes → Nat) (ukey : ε →
 example : GenFilter.contains (fun i (key : Bytes) => i + key.length) (List.range 3)
     (GenFilter.build (fun i (key : Bytes) => i + key.length) id 7 3 [[1], [2, 3]]) [2, 3] = true := by decide
 
+/-- the code of `levelManager.recover` (translated from /repo on every run): every handle Open rebuilds for a level carries the
+    filter built by `filter.Build` from the decoded entries of that very table file — so with `C16_code_no_false_negative` a
+    recovered table's filter contains every key of the table (the seeded change C16-g built it from other entries) -/
+theorem C16_code_recovered_filter {φ ν η ι β : Type} (isDir isDB isTmp : φ → Bool) (fname : φ → ν) (sortN : List ν → List ν)
+    (plevel pidx : ν → Nat) (indexOf : ν → ι) (entriesOf : ν → List η) (ver : η → Nat) (mkFilter : List η → β) (files : List φ)
+    (hne : ((files.filter (fun f => !isDir f && isDB f)).map fname).length ≠ 0) :
+    ∃ maxV levels ev,
+      GenLevel.recover isDir isDB isTmp fname sortN plevel pidx (fun _ => false) (fun _ _ => false) indexOf entriesOf ver mkFilter false files [] =
+        some (maxV, levels, ev) ∧
+      ∀ L, levels.getD L [] =
+        ((sortN ((files.filter (fun f => !isDir f && isDB f)).map fname)).filter (fun n => plevel n == L)).map
+          fun n => (pidx n, mkFilter (entriesOf n), indexOf n) := by
+  rw [LevelTie.recover_table]
+  dsimp only
+  rw [if_neg hne]
+  refine ⟨_, _, _, rfl, ?_⟩
+  intro L
+  rw [LevelTie.stepFile_handles]
+  simp
+
 #print axioms C16_no_false_negative
 #print axioms C16_monotone
 #print axioms C16_code_no_false_negative
 #print axioms C16_code_is_model
+#print axioms C16_code_recovered_filter
 #print axioms C16_rebuilt
 #print axioms C16_user_key
 end Props
